@@ -545,7 +545,7 @@ func inputs(maxLen int) [][]int {
 	for l := 1; l <= maxLen; l++ {
 		var cur [][]int
 		for _, p := range prev {
-			for _, v := range []int{1, 2, 3} {
+			for _, v := range []int{0, 1, 2, 3} { // 0 = the element type's zero value
 				if v == 3 && l < 2 {
 					continue
 				}
